@@ -8,12 +8,18 @@ def nontrivial_default(program, stats):
 
 
 def make_run(prop, props, quick, thorough, weights=None, nontrivial=None, max_sessions=3, max_ops=10, spec_kw=None,
-             classes_fn=None):
+             classes_fn=None, hub_share=(1, 3), hub_weights=None):
     nontrivial = nontrivial or nontrivial_default
 
     def run(ctx):
-        strat = sessmachine.programs(modelspec.specs(**(spec_kw or {})), max_sessions=max_sessions, max_ops=max_ops,
-                                     weights=weights)
+        generic = sessmachine.programs(modelspec.specs(**(spec_kw or {})), max_sessions=max_sessions, max_ops=max_ops,
+                                       weights=weights)
+        strat = generic
+        if hub_share:
+            # a second program family aimed at refused deletes and cascades that fail half-way (modelspec.hub_specs)
+            from hypothesis import strategies as st
+            hub = sessmachine.hub_programs(weights=hub_weights, keys=(spec_kw or {}).get('keys', True))
+            strat = st.one_of(*([generic] * (hub_share[1] - hub_share[0]) + [hub] * hub_share[0]))
 
         def t(program):
             stats = {}
@@ -33,6 +39,10 @@ def make_run(prop, props, quick, thorough, weights=None, nontrivial=None, max_se
                 if k.startswith('unexpected_write_failure:'):
                     classes.append('unexpected_write_failure')
                     break
+            if stats.get('delete_refused_by_model'):
+                classes.append('refused_delete')
+            if stats.get('delete_refused_after_partial_work'):
+                classes.append('refused_delete_after_partial_cascade')
             if classes_fn:
                 classes.extend(classes_fn(program, stats))
             nt = nontrivial(program, stats)
